@@ -144,7 +144,7 @@ func CoqCase(sc Scenario, o *Outcome, labels []string) string {
 	}
 	for b, s := range o.SubmitSeq {
 		if s >= 0 {
-			seqBlock[int(s)] = b
+			seqBlock[int(s)] = b // b = block id (index of the first attempt)
 		}
 	}
 	dec := make([]string, maxSeq+1)
